@@ -552,4 +552,62 @@ theorem mapM_atIdx_slice (c : Cal) : ∀ (mid pre post : List Int), c.bdays = pr
     rw [hx, e, ih]
     rfl
 
+
+theorem atIdx_of_getElem? (c : Cal) (i : Nat) (a : Int) (h : c.bdays[i]? = some a) : c.atIdx i = .ok a := by
+  unfold Cal.atIdx
+  have : ¬ ((i : Int) < 0) := by omega
+  simp [this, h]
+
+
+/-! ### the registry -/
+
+/-- run a history of `calendar(key, ...)` calls -/
+def runReg (month : Int → Int) (r : Registry) (ops : List (String × CalArgs)) : Registry :=
+  ops.foldl (fun r op => (r.calendar month op.1 op.2).1) r
+
+theorem get?_set_same (r : Registry) (k : String) (c : Cal) : (r.set k c).get? k = some c := by
+  simp [Registry.set, Registry.get?]
+
+theorem find?_filter_of_imp {α} (p q : α → Bool) (h : ∀ x, p x = true → q x = true) :
+    ∀ l : List α, (l.filter q).find? p = l.find? p
+  | [] => rfl
+  | x :: l => by
+    have ih := find?_filter_of_imp p q h l
+    cases hq : q x
+    · have hp : p x = false := by
+        cases hp : p x
+        · rfl
+        · rw [h x hp] at hq; cases hq
+      simp [List.filter, hq, List.find?, hp, ih]
+    · simp only [List.filter, hq, List.find?]
+      cases p x
+      · exact ih
+      · rfl
+
+theorem get?_set_other (r : Registry) (k k' : String) (c : Cal) (h : k' ≠ k) :
+    (r.set k' c).get? k = r.get? k := by
+  have h1 : (k' == k) = false := by simpa using h
+  simp only [Registry.set, Registry.get?, List.find?, h1]
+  congr 1
+  apply find?_filter_of_imp
+  intro e he
+  have : e.1 = k := by simpa using he
+  simp [this]
+  intro e'; exact h e'.symm
+
+theorem calendar_fetch (month : Int → Int) (r : Registry) (k : String) (c : Cal) (h : r.get? k = some c) :
+    (r.calendar month k ⟨none, none, none, none⟩).2 = c := by
+  simp [Registry.calendar, h, CalArgs.isDefault]
+
+/-- a `calendar(k', …)` call that does not (re-)register `k` leaves the entry of `k` alone -/
+theorem calendar_frame (month : Int → Int) (r : Registry) (k k' : String) (a : CalArgs) (c : Cal)
+    (hk : r.get? k = some c) (h : k' = k → a.isDefault = true) :
+    ((r.calendar month k' a).1).get? k = some c := by
+  unfold Registry.calendar
+  by_cases e : k' = k
+  · subst e
+    simp [hk, h rfl]
+  · cases hg : r.get? k' <;> cases hd : a.isDefault <;> simp [get?_set_other r k k' _ e, hk]
+
+
 end Pyg.Calendar
